@@ -907,7 +907,7 @@ fn main() {
                 }
                 if !m.is_req() {
                     // cut the big stream around its entry boundaries and its end
-                    let mut ks: Vec<usize> = boundaries(m).iter().flat_map(|b| [b.saturating_sub(1), *b, b + 1]).chain([n - 1, n / 2]).filter(|k| *k < n).collect();
+                    let mut ks: Vec<usize> = boundaries(m).iter().flat_map(|b| [b.saturating_sub(1), *b, b + 1]).chain([n.saturating_sub(1), n / 2]).filter(|k| *k < n).collect();
                     ks.sort();
                     ks.dedup();
                     for k in ks {
